@@ -82,6 +82,16 @@ def all_cases(tier):
             defs = list(kdefs) + [UNRELATED[1]]
             for order in itertools.permutations(range(len(defs))):
                 cases.append((pname, "undefined", copy.deepcopy(pattern), [defs[i] for i in order], []))
+    # the reference below k nested operators (k = 4..24)
+    for k in (4, 8, 12, 16, 24):
+        for pname in ("item", "key_times", "sub_mnemonic", "operand", "body_list_item", "body_string"):
+            pattern, kdefs = POSITIONS[pname](X)
+            inner = pattern
+            for lvl in range(k):
+                inner = [{("$and", "$or", "$and_any_order")[lvl % 3]: inner + (["ret"] if lvl % 3 else [])}]
+            defs = list(kdefs) + [UNRELATED[1]]
+            cases.append((f"deep{k}/{pname}", "undefined", inner, defs, []))
+            cases.append((f"deep{k}/{pname}", "undefined", inner, [], defs))
     # macro definitions whose own name lacks '@'
     for bad in ("k", "x@k", " @k"):
         cases.append(("badname", "n/a", ["mov", "@z"], [{"name": bad, "pattern": "mov"}, {"name": "@z", "pattern": "ret"}], []))
@@ -114,7 +124,31 @@ def judge(pname, kind, out):
     return None  # an error is always acceptable here (loudness of its message is checked below)
 
 
+def run_shared_library(h, res, known):
+    """One macro file left UNCHANGED on disk whose macro body refers to @scratch.  Rule A defines @scratch, rule B does not:
+    compiled in the order B, A, B, A, B in this process, B must be rejected (or contain no '@') every time."""
+    from jasm.jasm_regex.yaml2regex import Yaml2Regex
+    lib = h.write("c19_shared_lib.yaml", yaml.safe_dump({"macros": [{"name": "@clear", "pattern": [{"xor": ["@scratch", "@scratch"]}]}]}, sort_keys=False))
+    rule_a = make_rule_doc(["@clear", "ret"], None, [{"name": "@scratch", "pattern": "%eax"}])
+    rule_b = make_rule_doc(["@clear", "ret"], None, [{"name": "@unrelated", "pattern": "x"}])
+    rule_c = make_rule_doc(["@clear", "ret"])
+    for step, (nm, doc) in enumerate([("B", rule_b), ("A", rule_a), ("B", rule_b), ("C", rule_c), ("A", rule_a), ("C", rule_c), ("B", rule_b)]):
+        p = h.write(f"c19_shl_{nm}.yaml", yaml.safe_dump(doc, sort_keys=False))
+        res.evaluations += 1
+        res.nontrivial += 1
+        try:
+            out, kind = Yaml2Regex(p, macros_from_terminal=[lib]).produce_regex(), "ok"
+        except Exception as e:  # noqa
+            out, kind = f"{type(e).__name__}: {e}", "raise"
+        bad = (nm == "A" and (kind != "ok" or "@" in out or "%eax" not in out)) or (nm in ("B", "C") and kind == "ok")
+        if bad:
+            res.fail({"clause": "shared-library", "family": "sharedlib", "step": step, "which": nm, "rule": doc,
+                      "expected": "A compiles with %eax; B and C are rejected naming @scratch", "observed": f"{kind}: {out[:200]}", "size": step}, known)
+
+
 def run_shard(shard, tier, h, res, known):
+    if shard["lo"] == 0:
+        run_shared_library(h, res, known)
     cases = all_cases(tier)
     for ci in range(shard["lo"], len(cases), shard["n"]):
         pname, status, pat, rf, ef = cases[ci]
@@ -141,6 +175,13 @@ def controls(h):
 
 
 def replay(case, h):
+    if case.get("family") == "sharedlib":
+        r = type("R", (), {"evaluations": 0, "nontrivial": 0, "fails": []})()
+        r.fail = lambda c, k: r.fails.append(c)
+        run_shared_library(h, r, set())
+        return bool(r.fails), str(r.fails)[:300]
     kind, out, _ = run_one(h, case["rule"]["pattern"], case["rule"].get("macros") or [], case["extra_file_macros"])
     bad = judge(case["family"], kind, out)
-    return bad is not None or case["clause"] == "error-does-not-name", f"{kind}: {out}"
+    if bad is None and case["clause"] == "error-does-not-name":
+        bad = kind == "raise" and "@x" not in out and "AssertionError" not in out and "ValueError" in out
+    return bool(bad), f"{kind}: {out}"
